@@ -12,7 +12,7 @@ from oracles import plfun as P
 CALL_VARIANTS = True   # every whitelisted persim call is repeated with its arrays in another memory layout (mc/ctx.py)
 PROPERTY = "C08"
 RULE = (
-    "every num_steps in 2..64 (thorough ..300) on a cover of 5 diagrams x 2 grids; medium diagrams of 6..12 (thorough ..35) bars on grids of 5..121 nodes; ALL multisets of <= n bars with endpoints on the quarter lattice of [0,3] (78 bars, mostly off "
+    "every num_steps in 2..64 (thorough ..300) on a cover of 5 diagrams x 2 grids; medium diagrams of 6..12 (thorough ..35) bars on grids of 5..121 nodes; large diagrams (1100-4400 bars, thorough ..20000) whose bars x nodes product passes 2^20..2^22; ALL multisets of <= n bars with endpoints on the quarter lattice of [0,3] (78 bars, mostly off "
     "grid); per diagram: grids (start,stop) in {(0,3), (-1,4), (0,3.5), tight default, only start given, only stop given} x num_steps in "
     "{2,3,4,5,7,13} (+25,100 thorough), hom_deg 0/1 with a decoy. Oracle: k-th largest tent at every "
     "grid node and depth: |value - truth| <= step/2 (+1e-9), <= 1e-12 when every endpoint is a grid "
@@ -49,6 +49,9 @@ def cases(tier):
         for k in range(3):
             for lat in (True, False):
                 yield {"kind": "medium", "n": n_, "k": k, "lattice": lat}
+    # diagrams large enough that (number of grid nodes) x (number of bars) passes 2^20 .. 2^22 (size thresholds of any blocked / memory-saving path)
+    for nb, num in (((2200, 500), (1100, 1001), (4400, 257)) if tier == "quick" else ((2200, 500), (1100, 1001), (4400, 257), (8800, 500), (300, 15001), (20000, 60))):
+        yield {"kind": "large", "n": nb, "num": num}
     n = 2 if tier == "quick" else 3
     for m in multisets_upto(sorted(qbars(), key=lambda p: (p[1] - p[0], p[0])), n, min_size=1):
         yield {"D": [list(b) for b in m]}
@@ -112,6 +115,22 @@ def check_grid(ctx, D, pl, start, stop, num, what, sig="approx"):
                       observed=[pl.start, pl.stop, pl.num_steps], expected=[start, stop, num], extra=ex)
 
 
+def run_large(case, ctx):
+    """Thousands of bars (low-discrepancy births and lengths, endpoints off the grid) on one grid."""
+    from persim import PersLandscapeApprox
+
+    n, num = int(case["n"]), int(case["num"])
+    i = np.arange(1, n + 1, dtype=float)
+    b = np.round(((i * 0.6180339887498949) % 1.0) * 8.0, 6)
+    D = np.column_stack([b, b + np.round(0.05 + ((i * 0.4142135623730951) % 1.0) * 1.9, 6)])   # every bar inside [0, 10]
+    start, stop = 0.0, 10.0
+    ctx.state(("large", n, num))
+    pl = quiet(ctx, PersLandscapeApprox, dgms=[D.copy()], hom_deg=0, num_steps=num, start=start, stop=stop)
+    check_grid(ctx, D.tolist(), pl, start, stop, num, "large diagram", sig="approx-large")
+    ctx.nontriv("large_diagram_%d_bars_x_%d_nodes" % (n, num))
+    ctx.outcome(("large", n, num))
+
+
 def run_medium(case, ctx):
     """Diagrams of 6..35 bars (deep stacks of overlapping bars) on grids with 5..121 nodes."""
     from persim import PersLandscapeApprox, PersistenceLandscaper
@@ -140,6 +159,8 @@ def run_case(case, ctx):
     from persim import PersLandscapeApprox, PersLandscapeExact, PersistenceLandscaper
     from persim.landscapes import death_vector, vectorize
 
+    if case.get("kind") == "large":
+        return run_large(case, ctx)
     if case.get("kind") == "medium":
         return run_medium(case, ctx)
     if case.get("kind") == "steps-sweep":
